@@ -87,6 +87,9 @@ func (f *Filter) Filter(query *linear.Seq, selfAlign, complement bool, morass *m
 
 	// Ticker tracks cycling of circular list of active tubes.
 	ticker := tubeWidth
+	// ended counts the tubes retired by the ticker: tubes are
+	// retired in index order, so it is also the first live tube.
+	ended := 0
 
 	var err error
 	err = f.ki.ForEachKmerOf(query, 0, query.Len(), func(ki *kmerindex.Index, position, kmer int) {
@@ -103,6 +106,7 @@ func (f *Filter) Filter(query *linear.Seq, selfAlign, complement bool, morass *m
 			if e := f.tubeEnd(position); e != nil {
 				panic(e) // Caught by fastkmerindex.ForEachKmerOf and returned
 			}
+			ended++
 			ticker = f.tubeOffset
 		}
 	})
@@ -115,13 +119,12 @@ func (f *Filter) Filter(query *linear.Seq, selfAlign, complement bool, morass *m
 		return err
 	}
 
-	diagFrom := f.diagIndex(f.target.Len()-1, query.Len()-1) - tubeWidth
 	diagTo := f.diagIndex(0, query.Len()-1) + tubeWidth
 
-	tubeFrom := f.tubeIndex(diagFrom)
-	if tubeFrom < 0 {
-		tubeFrom = 0
-	}
+	// The live tubes are exactly those the ticker has not retired: a
+	// lower index shares its slot in the circular list with a live tube,
+	// a higher one would leave live tubes to be flushed under a later index.
+	tubeFrom := ended
 
 	tubeTo := f.tubeIndex(diagTo)
 
